@@ -100,6 +100,7 @@ type Party struct {
 	Closes  int
 	Emitted []*protocol.Message
 	Dead    bool // panicked or hung: never called again
+	Hung    bool // a call never returned: it still holds the handler's lock, no API call may follow (not even Result)
 }
 
 // NewParty constructs the handler with the party's random stream installed.
@@ -203,6 +204,7 @@ func (p *Party) Call(f func()) Outcome {
 			oc.Closed = p.Closed
 			oc.Elapsed = time.Since(start)
 			p.Dead = true
+			p.Hung = true
 			return oc
 		}
 	}
@@ -225,6 +227,9 @@ type Status struct {
 // Status reads Result().
 func (p *Party) Status() Status {
 	var s Status
+	if p.Hung {
+		return Status{St: "hung"}
+	}
 	res, err := p.H.Result()
 	switch {
 	case err == nil:
